@@ -63,7 +63,14 @@ EXPLANATION = (
     "(functools.partial, lambdas, bound methods in dispatch tables, methods of private parameter-holder objects); "
     "collections filtered by should_sign carry the consent for each element; token hand-out is typed through lazy "
     "pipelines (islice, takewhile, dropwhile, map, accumulate, reduce, zip with a bounded range).  add_known_hash may "
-    "write only the registration of the hash it was given."
+    "write only the registration of the hash it was given, holding the name, subject key and metadata exactly as given.  "
+    "A verdict may be delivered by exception: a statement call of a readable helper that can raise contributes, once it "
+    "has completed, what holds at every normal exit of the helper.  `table.get(k, SENTINEL) is not SENTINEL` (module- or "
+    "class-level object() bound once) says that k is in the table; the extra-metadata dict is recognised by what it "
+    "computes (items / keys of the transaction minus the three required names, by filter or set difference).  "
+    "own-attestation-recorded: the 'already attested' scan reads stored rows, so the key of table Attestations (parsed "
+    "from the CREATE TABLE text of get_schema) has to include the authority column whenever insert_attestation resolves "
+    "key conflicts silently."
 )
 
 IC = "ipv8/attestation/identity/community.py"
@@ -118,6 +125,10 @@ def _plain_call(fi: FuncInfo, n: ast.AST) -> ast.AST:  # noqa: C901, PLR0911
         if maker == "methodcaller" and made.args and isinstance(const_value(made.args[0]), str) and const_value(made.args[0]).isidentifier() and all(k.arg is not None for k in made.keywords):
             return ast.Call(func=ast.Attribute(value=x, attr=const_value(made.args[0]), ctx=ast.Load()), args=list(made.args[1:]), keywords=list(made.keywords))
         return n
+    if isinstance(n.func, ast.Name) and n.func.id == "getattr" and len(n.args) == 2 and not n.keywords and isinstance(const_value(n.args[1]), str) \
+            and const_value(n.args[1]).isidentifier() and not const_value(n.args[1]).startswith("__") \
+            and n.func.id not in fi.params() and not local_defs(fi, n.func.id) and "getattr" not in fi.module.imports:
+        return ast.Attribute(value=n.args[0], attr=const_value(n.args[1]), ctx=ast.Load())      # getattr(x, "name") is x.name
     op = _operator_name(fi, n.func)
     if op is None or n.keywords:
         return n
@@ -205,6 +216,8 @@ class _Expander(ast.NodeTransformer):
 
     def visit_Attribute(self, n: ast.Attribute):  # noqa: N802
         n = self.generic_visit(n)
+        if isinstance(n.ctx, ast.Load):
+            n.value = self._entry_read(n.value)
         if isinstance(n.ctx, ast.Load) and isinstance(n.value, ast.Name) and n.value.id == "self" and "self" not in self.bound:
             val = _property_value(self.fi, n.attr)
             if val is not None:
@@ -253,6 +266,41 @@ class _Expander(ast.NodeTransformer):
                 and (len(n.args) == 1 or (len(n.args) == 2 and const_value(n.args[1]) is None)) and not isinstance(n.args[0], ast.Starred):
             return ast.Subscript(value=n.func.value, slice=n.args[0], ctx=ast.Load())
         return n
+
+    def _entry_read(self, v: ast.AST) -> ast.AST:
+        """
+        `table.get(k, SENTINEL)` in the value position of `.attr` / `[i]`: the entry table[k] wherever it exists - and where it
+        does not, the read fails on the sentinel (an object() / Enum member has neither the attribute nor items), so a
+        completed read is a read of the entry.  In any other position (a test, a comparison) the call is kept as written.
+        """
+        c = strip_cast(v)
+        if isinstance(c, ast.Call) and isinstance(c.func, ast.Attribute) and c.func.attr == "get" and not c.keywords and len(c.args) == 2 \
+                and not any(isinstance(a, ast.Starred) for a in c.args) and norm(c.func.value) in self.getsub and const_value(c.args[1]) is not None \
+                and _fixed_default(self.fi, c.args[1]) and str(getattr(_global_const(self.fi, c.args[1]), "owner", "")).startswith("object@"):
+            return ast.Subscript(value=c.func.value, slice=c.args[0], ctx=ast.Load())
+        return v
+
+    def visit_Subscript(self, n: ast.Subscript):  # noqa: N802
+        n = self.generic_visit(n)
+        if isinstance(n.ctx, ast.Load):
+            n.value = self._entry_read(n.value)
+        return n
+
+
+def _fixed_default(fi: FuncInfo, d: ast.AST) -> bool:
+    """
+    The fallback of a `.get(k, <d>)` is None or one fixed object: an Enum member or a module-level `object()` sentinel that
+    is bound exactly once (evaluating <d> twice gives the identical object, so `t.get(k, d) is d` holds whenever k is
+    missing from t - whatever t stores).
+    """
+    if isinstance(d, ast.Starred):
+        return False
+    if const_value(d) is None:
+        return True
+    try:
+        return isinstance(_global_const(fi, d), _Sym)
+    except Exception:  # noqa: BLE001
+        return False
 
 
 _PURE_DEPTH = [0]
@@ -697,6 +745,30 @@ def _enum_member(cls, name: str):
     return _Sym(cls.name, name, consts[name], mixed)
 
 
+_FOREIGN_SYMS: dict = {}        # marker name -> _Sym of a module-level sentinel that a lifted expression of another module mentions
+
+
+def _class_sentinel(cls, attr: str):
+    """
+    The _Sym of a class-level `NAME = object()` sentinel read as self.NAME / cls.NAME / Class.NAME: one class of the hierarchy
+    binds it, once, in its body, and nothing in the repository assigns or deletes an attribute of that name.  Else NOCONST.
+    """
+    try:
+        owners = [k for k in {id(k): k for k in [*cls.mro(), *cls.all_subclasses()]}.values() if attr in k.attrs or attr in k.methods]
+        if len(owners) != 1 or attr in owners[0].methods:
+            return NOCONST
+        v = strip_cast(owners[0].attrs[attr])
+        if not (isinstance(v, ast.Call) and chain(v.func) == "object" and not v.args and not v.keywords):
+            return NOCONST
+        binds = sum(1 for st in owners[0].node.body for n in ast.walk(st) if isinstance(n, ast.Name) and n.id == attr and isinstance(n.ctx, (ast.Store, ast.Del)))
+        if binds != 1 or any(isinstance(a.ctx, (ast.Store, ast.Del)) for _m, _f, a in _REPO.attribute_uses(attr)):
+            return NOCONST
+        # (setattr with a computed name is not looked for: the engine's attribute index is what every rule relies on)
+        return _Sym("object@" + owners[0].module.relpath + ":" + owners[0].name, attr)
+    except Exception:  # noqa: BLE001
+        return NOCONST
+
+
 def _global_const(fi: FuncInfo, e: ast.AST | None):
     """
     The value of an expression that does not depend on the run: a literal, a module-level constant, Class.CONSTANT, an
@@ -710,6 +782,8 @@ def _global_const(fi: FuncInfo, e: ast.AST | None):
         return cv
     try:
         if isinstance(e, ast.Name):
+            if e.id in _FOREIGN_SYMS:
+                return _FOREIGN_SYMS[e.id]
             if e.id in fi.params() or local_defs(fi, e.id):
                 return NOCONST
             r = _REPO.resolve_name(fi.module, e.id)
@@ -725,9 +799,14 @@ def _global_const(fi: FuncInfo, e: ast.AST | None):
             cv = _REPO.resolve_const(r[1], v)
             return tuple(cv) if isinstance(cv, list) else cv
         if isinstance(e, ast.Attribute):
+            if isinstance(e.value, ast.Name) and e.value.id in ("self", "cls") and fi.cls is not None and fi.params() and fi.params()[0] == e.value.id \
+                    and not local_defs(fi, e.value.id) and "staticmethod" not in fi.decorator_names():
+                return _class_sentinel(fi.cls, e.attr)
             c = _REPO.resolve_class_expr(fi.module, e.value)
             if c is None:
                 return NOCONST
+            if _class_sentinel(c, e.attr) is not NOCONST:
+                return _class_sentinel(c, e.attr)
             if _bases(c) & _ENUM_BASES:
                 return _enum_member(c, e.attr)
             cv = _REPO.resolve_const(fi.module, e, None)
@@ -1002,6 +1081,13 @@ class _Frame:
                     return ast.Name(id=fr.tag + n.id, ctx=n.ctx)
                 if n.id in fr.bind and isinstance(n.ctx, ast.Load):
                     return clone(fr.bind[n.id])
+                if fr.hf.module is not fr.caller.module and isinstance(n.ctx, ast.Load):
+                    # a sentinel object of the helper's own module keeps its identity under a name that cannot clash in the caller's module
+                    g = _global_const(fr.hf, n)
+                    if isinstance(g, _Sym) and str(g.owner).startswith("object@"):
+                        mark = "_c17_sentinel_" + "".join(ch if ch.isalnum() else "_" for ch in f"{g.owner}_{g.name}")
+                        _FOREIGN_SYMS[mark] = g
+                        return ast.Name(id=mark, ctx=ast.Load())
                 return n
 
             def visit_Attribute(self, n):  # noqa: N802
@@ -1603,6 +1689,11 @@ def _is_new(h: FuncInfo) -> bool:
     return h.qualname not in table[rel]
 
 
+def _any_value(_v) -> bool:
+    """the outcome `the call returned at all` (used for checkers that deliver their verdict by raising)"""
+    return True
+
+
 class _FinalAtom:
     """The virtual test `the returned expression has the wanted outcome` at a site."""
     kind = "final"
@@ -1991,6 +2082,12 @@ class _Paths:
                         continue                  # nothing to iterate over in this state
                     if accept(u, lab, st):
                         continue
+                elif lab != "exc" and u.kind == "stmt" and self._checker_call(u) is not None:
+                    # `checker(...)` as a statement: leaving it normally says that the checker did not raise
+                    if visit is not None:
+                        visit(u, lab, st)
+                    if accept(u, lab, st):
+                        continue
                 st2 = st
                 if lab != "exc" and u in self.def_at:
                     l2 = list(st)
@@ -2047,14 +2144,54 @@ class _Paths:
                 finally:
                     self._subs_cache[ck] = self._collectors.pop()
             return self._pairs_cache[ck]
+        if u.kind == "stmt" and self._checker_call(u) is not None:
+            ck = (id(u.ast), "completes", st)
+            if ck not in self._pairs_cache:
+                self._collectors.append([])
+                try:
+                    self._pairs_cache[ck] = self.outcome(self._checker_call(u), _any_value, None, (), ("completes", True))
+                finally:
+                    self._subs_cache[ck] = self._collectors.pop()
+            self._collect(self._subs_cache.get(ck, ()))
+            return self._pairs_cache[ck]
         if u.kind != "cond":
             return []
         return self.pairs(u.ast, lab, st)
 
+    def _checker_call(self, u) -> ast.Call | None:
+        """
+        The call of an expression statement `helper(...)` whose helper can be read and can raise (raise / assert in its own
+        body): a verdict delivered by exception.  Whatever holds at every normal exit of the helper (any returned value,
+        falling off the end), told in this function's terms, holds once the statement has completed.
+        """
+        memo = self.__dict__.setdefault("_checker_memo", {})
+        if u not in memo:
+            memo[u] = None
+            a = u.ast
+            # (`_ = checker(...)` / `x = checker(...)`: the same, the value is whatever a normal exit hands back)
+            v = strip_cast(a.value) if isinstance(a, (ast.Expr, ast.Assign, ast.AnnAssign)) and a.value is not None else None
+            if isinstance(v, ast.Call) and self.depth < self.MAXDEPTH and not (chain(v.func) or "").startswith(("self.logger.", "logger.", "logging.")):
+                try:
+                    fr = _follow(self.ctx, self.fi, v, f"h{self.depth + 1}_", self.getsub)
+                except AnalysisError:
+                    fr = None
+                if fr is not None and any(isinstance(x, (ast.Raise, ast.Assert)) for x in walk_no_nested(fr.hf.node)):
+                    memo[u] = v
+        return memo[u]
+
+    def completed_checkers(self) -> list:
+        """the statement calls of raising checkers that every feasible path to the site has completed"""
+        out = []
+        for u in self.cfg.nodes:
+            if u.kind == "stmt" and self._checker_call(u) is not None:
+                if not self._search(lambda n, lab, st, u=u: n is u and not isinstance(n, _FinalAtom)):
+                    out.append(self._checker_call(u))
+        return out
+
     def edge_parts(self, u, lab, st) -> list:
         """the followed calls whose outcome the edge tests: [(frame, [_Paths per producing return of the helper])]"""
         self.edge_pairs(u, lab, st)
-        ck = ("final", st) if isinstance(u, _FinalAtom) else (id(u.ast), lab, st)
+        ck = ("final", st) if isinstance(u, _FinalAtom) else (id(u.ast), "completes", st) if u.kind == "stmt" else (id(u.ast), lab, st)
         return [self._outcome_parts[k] for k in self._subs_cache.get(ck, ()) if k in self._outcome_parts]
 
     def holds(self, pred) -> bool:
@@ -2246,10 +2383,22 @@ def known_hash_layout(ctx: Ctx) -> dict:
                 e2 = _expand(fi, e)
                 if isinstance(e2, ast.Call) and chain(e2.func) in ("time", "time.time") and not e2.args:
                     layout["time"] = i
+        missing = {"name", "public_key", "metadata", "time"} - set(layout)
+        if len(missing) == 1 and "time" not in missing and len(tup.elts) == 4:
+            # three components are the call's own values; the fourth is COMPUTED from the remaining parameter (and from no other):
+            # it takes that parameter's place, but the registration no longer holds what the user gave
+            (field,) = missing
+            (i,) = set(range(4)) - set(layout.values())
+            want = {"name": p[2], "public_key": p[3], "metadata": p[4]}[field]
+            used = {n.id for n in ast.walk(_expand(fi, lift(tup.elts[i]))) if isinstance(n, ast.Name)}
+            if want in used and not used & (set(p[1:]) - {want}):
+                layout[field] = i
+                rewritten.append((field, norm(tup.elts[i])))
         if set(layout) != {"name", "public_key", "metadata", "time"}:
             return None
         layout["#attrs"] = {k: attrs[i] for k, i in layout.items()} if attrs else {}
         return layout
+    rewritten: list = []
     shapes = [slots(owner, lift, v) for owner, lift, _st, _k, v in writes]
     layout = next((x for x in shapes if x is not None), None)
     if layout is None:
@@ -2257,6 +2406,12 @@ def known_hash_layout(ctx: Ctx) -> dict:
         if not isinstance(tup, (ast.Tuple, ast.Call)):
             raise AnalysisError("anchor-lost: add_known_hash no longer stores a tuple literal")
         raise AnalysisError("anchor-lost: add_known_hash tuple layout not (name, time(), public_key, metadata) in some order")
+    if rewritten:
+        field, text = rewritten[0]
+        ctx.check(False, "should-sign", fi, writes[0][2], "add_known_hash stores the registered name, subject key and metadata exactly as given",
+                  f"add_known_hash stores `{text}` in place of the {field} it was given: the registration must hold exactly the values the user registered (should_sign "
+                  "compares the disclosed name, subject key and extra metadata with them, and skips the metadata comparison when the stored metadata is None) - a rewritten "
+                  "value lets should_sign approve a credential whose name / key / extra metadata the user never approved")
     for (owner, lift, st, key, _v), shape in zip(writes, shapes):
         # the key is (a padded form of) the attribute hash parameter and involves no other argument
         key_names = {n.id for n in ast.walk(_expand(fi, lift(key))) if isinstance(n, ast.Name)}
@@ -2483,6 +2638,17 @@ def _attested_refusal(ctx: Ctx, fi: FuncInfo, approving: list, text, local, over
                                      over, authority, mykey, single_key, ga_ret, report, depth + 1):
                     ok = True
                     break
+        if not ok and depth < 2:
+            # ... or by a checker that raises: every approving arrival lies behind its normal completion
+            for s in p.completed_checkers():
+                fr = _follow(ctx, fi, s, f"a{depth + 1}_", p.getsub)
+                if fr is None:
+                    continue
+                sub = _approving_exits(ctx, fr.hf, _any_value, None, ("completes", True), depth=depth + 1, getsub=p.getsub, feasible_only=True)
+                if sub and _attested_refusal(ctx, fr.hf, sub, lambda e, fr=fr: text(fr.lift(e)), lambda n, fr=fr: local(fr.tag + n if n in fr.locals else n),
+                                             over, authority, mykey, single_key, ga_ret, report, depth + 1):
+                    ok = True
+                    break
         verdict = verdict and ok
     return verdict and bool(approving)
 
@@ -2533,10 +2699,22 @@ def rule_should_sign(ctx: Ctx) -> None:  # noqa: C901, PLR0912, PLR0915
         """the fact says that `key` is in `table`: key in table / table.get(key) is not None / table.get(key) truthy (entries are tuples, tokens)"""
         if f.op == "in" and f.pos and X(f.left) == key and X(f.right) in (table, _c(f"{table}.keys()")):
             return True
-        raw = _x(fi, f.left, tuple(g for g in GS if g != table))
+        left = strip_cast(f.left)
+        while isinstance(left, ast.NamedExpr):
+            left = strip_cast(left.value)         # (x := table.get(key)) is tested for what it evaluates to
+        raw = _x(fi, left, tuple(g for g in GS if g != table))
         # table[key] itself under test: it was evaluated (a missing key raises), or stands for a .get() read in a helper
         if raw in (_c(f"{table}.get({key})"), _c(f"{table}.get({key}, None)"), _c(f"{table}[{key}]")):
             return (f.op == "truthy" and f.pos) or (f.op == "is" and not f.pos and f.right is not None and const_value(f.right) is None)
+        # table.get(key, SENTINEL) is not SENTINEL: a missing key hands back the identical fallback object, so the test fails for it
+        rx = _expand(fi, left, tuple(g for g in GS if g != table))
+        if f.op == "is" and not f.pos and f.right is not None and isinstance(rx, ast.Call) and isinstance(rx.func, ast.Attribute) and rx.func.attr == "get" \
+                and not rx.keywords and len(rx.args) == 2 and not isinstance(rx.args[0], ast.Starred) and norm(rx.func.value) == table and norm(rx.args[0]) == key:
+            d = strip_cast(f.right)
+            if not (_fixed_default(fi, rx.args[1]) and _fixed_default(fi, d)) or const_value(d) is None:
+                return False
+            # the same object under both spellings (self.NOTHING / cls.NOTHING / Class.NOTHING)
+            return norm(strip_cast(rx.args[1])) == norm(d) or _global_const(fi, rx.args[1]) == _global_const(fi, d)
         return False
 
     def registered(f) -> bool:
@@ -2776,26 +2954,130 @@ def _new_function_only_reached_from(ctx: Ctx, f2: FuncInfo, allowed: tuple[str, 
     return n > 0
 
 
-def _extra_fields_of(fi: FuncInfo, dc: ast.AST | None, tr: str) -> bool:
-    """dc is `{k: v for k, v in <transaction>.items() if k not in <name, date, schema>}` (any literal kind for the three names)."""
-    if not isinstance(dc, ast.DictComp) or len(dc.generators) != 1:
+def _extra_fields_of(fi: FuncInfo, dc: ast.AST | None, tr: str) -> bool:  # noqa: C901, PLR0911, PLR0912, PLR0915
+    """
+    dc (already expanded) evaluates to the dict of exactly those entries of <transaction> whose key is none of name / date /
+    schema.  Read by what it computes: the keys come from the transaction (its items(), its keys, a set of its keys), the
+    three names are taken out by a filter on the key and / or by a set difference on the keys, each value is the
+    transaction's own value for that key.  `{k: v for k, v in T.items() if k not in R}`, `{k: T[k] for k in set(T) - R}`,
+    `dict((k, T[k]) for k in T if k not in R)`, `dict(filter(lambda kv: kv[0] not in R, T.items()))` ... are the same dict
+    (dict equality does not depend on the insertion order).
+    """
+    required = {"name", "date", "schema"}
+    dc = strip_cast(dc) if dc is not None else None
+    key_forms = {_c(t.format(tr=tr)) for t in ("{tr}", "{tr}.keys()", "set({tr}.keys())", "set({tr})", "frozenset({tr}.keys())", "frozenset({tr})", "list({tr}.keys())",
+                                               "list({tr})", "tuple({tr}.keys())", "tuple({tr})", "sorted({tr})", "sorted({tr}.keys())", "iter({tr})", "iter({tr}.keys())")}
+    item_forms = {_c(t.format(tr=tr)) for t in ("{tr}.items()", "list({tr}.items())", "tuple({tr}.items())", "iter({tr}.items())")}
+
+    def excluded_by(t: ast.AST, is_key) -> set | None:
+        """the constants a filter condition on the key keeps out (`k not in R`, `not k in R`, `k != "c"`, conjunctions of these); None: not such a condition"""
+        neg = False
+        while isinstance(t, ast.UnaryOp) and isinstance(t.op, ast.Not):
+            t, neg = t.operand, not neg
+        if isinstance(t, ast.BoolOp) and ((isinstance(t.op, ast.And) and not neg) or (isinstance(t.op, ast.Or) and neg)):
+            out: set = set()
+            for v in t.values:
+                got = excluded_by(ast.UnaryOp(op=ast.Not(), operand=v) if neg else v, is_key)
+                if got is None:
+                    return None
+                out |= got
+            return out
+        if not (isinstance(t, ast.Compare) and len(t.ops) == 1 and is_key(t.left)):
+            return None
+        op, r = t.ops[0], t.comparators[0]
+        if (isinstance(op, ast.NotIn) and not neg) or (isinstance(op, ast.In) and neg):
+            return _const_set(r)
+        if (isinstance(op, ast.NotEq) and not neg) or (isinstance(op, ast.Eq) and neg):
+            return {const_value(r)} if isinstance(const_value(r), str) else None
+        return None
+
+    def keys_minus(e: ast.AST, depth: int = 0) -> set | None:
+        """e iterates over the transaction's keys except the returned constants; None: something else"""
+        e = strip_cast(e)
+        if norm(e) in key_forms:
+            return set()
+        if depth > 4:
+            return None
+        if isinstance(e, ast.BinOp) and isinstance(e.op, ast.Sub):
+            left, right = keys_minus(e.left, depth + 1), _const_set(strip_cast(e.right))
+            return None if left is None or right is None else left | right
+        if isinstance(e, ast.Call) and not e.keywords and not any(isinstance(x, ast.Starred) for x in e.args):
+            if isinstance(e.func, ast.Attribute) and e.func.attr == "difference" and e.args:
+                out = keys_minus(e.func.value, depth + 1)
+                rights = [_const_set(strip_cast(x)) for x in e.args]
+                if out is None or any(x is None for x in rights):
+                    return None
+                return out.union(*rights)
+            if chain(e.func) in ("list", "tuple", "set", "frozenset", "sorted", "iter") and len(e.args) == 1:
+                return keys_minus(e.args[0], depth + 1)
+            if chain(e.func) == "filter" and len(e.args) == 2:
+                fn = strip_cast(e.args[0])
+                if isinstance(fn, ast.Lambda) and len(fn.args.args) == 1 and not (fn.args.posonlyargs or fn.args.vararg or fn.args.kwarg or fn.args.kwonlyargs or fn.args.defaults):
+                    var = fn.args.args[0].arg
+                    inner, ex = keys_minus(e.args[1], depth + 1), excluded_by(fn.body, lambda x: isinstance(x, ast.Name) and x.id == var)
+                    return None if inner is None or ex is None else inner | ex
+        if isinstance(e, (ast.GeneratorExp, ast.ListComp, ast.SetComp)) and len(e.generators) == 1 and not e.generators[0].is_async and isinstance(e.generators[0].target, ast.Name) \
+                and isinstance(e.elt, ast.Name) and e.elt.id == e.generators[0].target.id:
+            var = e.generators[0].target.id
+            out = keys_minus(e.generators[0].iter, depth + 1)
+            for t in e.generators[0].ifs:
+                ex = excluded_by(t, lambda x: isinstance(x, ast.Name) and x.id == var)
+                if out is None or ex is None:
+                    return None
+                out = out | ex
+            return out
+        return None
+
+    def items_minus(e: ast.AST) -> set | None:
+        """e iterates over the transaction's (key, value) pairs except those whose key is one of the returned constants"""
+        e = strip_cast(e)
+        if norm(e) in item_forms:
+            return set()
+        if isinstance(e, ast.Call) and chain(e.func) == "filter" and len(e.args) == 2 and not e.keywords:
+            fn = strip_cast(e.args[0])
+            if isinstance(fn, ast.Lambda) and len(fn.args.args) == 1 and not (fn.args.posonlyargs or fn.args.vararg or fn.args.kwarg or fn.args.kwonlyargs or fn.args.defaults):
+                var = fn.args.args[0].arg
+                inner = items_minus(e.args[1])
+                ex = excluded_by(fn.body, lambda x: isinstance(x, ast.Subscript) and isinstance(x.value, ast.Name) and x.value.id == var and const_value(x.slice) == 0
+                                 and not isinstance(const_value(x.slice), bool))
+                return None if inner is None or ex is None else inner | ex
+        return None
+    if isinstance(dc, ast.Call) and chain(dc.func) == "dict" and len(dc.args) == 1 and not dc.keywords and not isinstance(dc.args[0], ast.Starred):
+        a = strip_cast(dc.args[0])
+        if isinstance(a, (ast.GeneratorExp, ast.ListComp)) and isinstance(a.elt, ast.Tuple) and len(a.elt.elts) == 2:
+            key, value, gens = a.elt.elts[0], a.elt.elts[1], a.generators
+        else:
+            return items_minus(a) == required             # dict(<the pairs themselves>)
+    elif isinstance(dc, ast.DictComp):
+        key, value, gens = dc.key, dc.value, dc.generators
+    else:
         return False
-    g = dc.generators[0]
-    if g.is_async or not (isinstance(g.target, ast.Tuple) and len(g.target.elts) == 2 and all(isinstance(t, ast.Name) for t in g.target.elts)):
+    if len(gens) != 1 or gens[0].is_async:
         return False
-    k, v = g.target.elts[0].id, g.target.elts[1].id
-    if not (isinstance(dc.key, ast.Name) and dc.key.id == k and isinstance(dc.value, ast.Name) and dc.value.id == v and k != v):
+    g = gens[0]
+    if isinstance(g.target, ast.Tuple) and len(g.target.elts) == 2 and all(isinstance(t, ast.Name) for t in g.target.elts):
+        k, v = g.target.elts[0].id, g.target.elts[1].id
+        if k == v:
+            return False
+        out = items_minus(g.iter)
+    elif isinstance(g.target, ast.Name):
+        k, v = g.target.id, None
+        out = keys_minus(g.iter)
+    else:
         return False
-    if norm(g.iter) != _c(f"{tr}.items()") or len(g.ifs) != 1:
+    if out is None or not (isinstance(key, ast.Name) and key.id == k):
         return False
-    t = g.ifs[0]
-    neg = False
-    while isinstance(t, ast.UnaryOp) and isinstance(t.op, ast.Not):
-        t, neg = t.operand, not neg
-    if not (isinstance(t, ast.Compare) and len(t.ops) == 1 and isinstance(t.left, ast.Name) and t.left.id == k):
+    # the value stored under k: the pair's own value, or the transaction's entry for k (k is one of its keys)
+    own = isinstance(value, ast.Name) and v is not None and value.id == v
+    looked_up = norm(value) in (_c(f"{tr}[{k}]"), _c(f"{tr}.get({k})"))
+    if not (own or looked_up):
         return False
-    excluded = (isinstance(t.ops[0], ast.NotIn) and not neg) or (isinstance(t.ops[0], ast.In) and neg)
-    return excluded and _const_set(t.comparators[0]) == {"name", "date", "schema"}
+    for t in g.ifs:
+        ex = excluded_by(t, lambda x: isinstance(x, ast.Name) and x.id == k)
+        if ex is None:
+            return False
+        out = out | ex
+    return out == required
 
 
 _UNK = "\x00"          # an unknown piece of text inside a partially known string
@@ -3078,6 +3360,151 @@ def rule_attested_memory(ctx: Ctx) -> None:
                       f"{meth}: a stored {table} row is never replaced (first write wins), so the 'already attested' memory stays attached to the attested metadata",
                       f"IdentityDatabase.{meth} replaces an existing {table} row: re-issued metadata for an already attested token displaces the attested one, "
                       "should_sign's 'already attested' lookup finds nothing for it and the same registered attribute is attested again")
+
+
+def _table_definition(text: str, table: str):
+    """
+    (columns, primary key) of `CREATE TABLE [IF NOT EXISTS] <table> (...)` inside an SQL script, both as lists of names in the
+    script's own spelling; primary key None when the table declares none.  None when the script does not create the
+    table; raises ValueError when the definition cannot be read (unknown text inside it, unbalanced parentheses).
+    """
+    import re
+    m = re.search(r"CREATE\s+(?:TEMP(?:ORARY)?\s+)?TABLE\s+(?:IF\s+NOT\s+EXISTS\s+)?[\"`\[]?" + re.escape(table) + r"[\"`\]]?\s*\(", text, re.IGNORECASE)
+    if m is None:
+        return None
+    depth, i, items, cur = 1, m.end(), [], ""
+    while i < len(text) and depth:
+        ch = text[i]
+        if ch == "(":
+            depth += 1
+        elif ch == ")":
+            depth -= 1
+            if depth == 0:
+                break
+        if ch == "," and depth == 1:
+            items.append(cur)
+            cur = ""
+        else:
+            cur += ch
+        i += 1
+    if depth:
+        raise ValueError("unbalanced parentheses")
+    items.append(cur)
+    if any(_UNK in it for it in items):
+        raise ValueError("a part of the definition is only known at run time")
+    columns, pk = [], None
+
+    def names(inner: str) -> list[str]:
+        return [re.sub(r"\s+(ASC|DESC)$", "", x.strip().strip("\"`[]"), flags=re.IGNORECASE) for x in inner.split(",") if x.strip()]
+    for it in items:
+        it = " ".join(it.split())
+        if not it:
+            continue
+        up = it.upper()
+        c = re.match(r"(?:CONSTRAINT\s+\S+\s+)?PRIMARY\s+KEY\s*\((.*)\)", it, re.IGNORECASE)
+        if c is not None:
+            if pk is not None:
+                raise ValueError("two primary keys")
+            pk = names(c.group(1))
+            continue
+        if re.match(r"(?:CONSTRAINT\s+\S+\s+)?(UNIQUE|CHECK|FOREIGN\s+KEY)\b", up):
+            continue
+        col = it.split()[0].strip("\"`[]")
+        columns.append(col)
+        if re.search(r"\bPRIMARY\s+KEY\b", up):
+            if pk is not None:
+                raise ValueError("two primary keys")
+            pk = [col]
+    return columns, pk
+
+
+def rule_own_attestation_recorded(ctx: Ctx) -> None:  # noqa: C901, PLR0912, PLR0915
+    """
+    should_sign's "already attested" test reads the attestations STORED over the metadata and looks for one whose
+    authority is us.  It can only refuse a replay if our own attestation is always stored.  insert_attestation resolves
+    a primary-key conflict silently (INSERT OR IGNORE / OR REPLACE / ON CONFLICT), so the row of an attestation by
+    ANOTHER authority for the same key columns either keeps ours out or is displaced by ours - unless the authority is
+    part of the key.  Decided on the source: the CREATE TABLE text of get_schema, the INSERT text of insert_attestation.
+    """
+    import re
+    _use(ctx)
+    table = "Attestations"
+    schema_fi = _method(ctx, "IdentityDatabase", "get_schema", ID)
+    ins = _method(ctx, "IdentityDatabase", "insert_attestation", ID)
+    ga = _method(ctx, "IdentityDatabase", "get_authority", ID)
+    # 1. the table definition
+    definitions = []
+    rets = [r for r in walk_no_nested(schema_fi.node) if isinstance(r, ast.Return) and r.value is not None]
+    for r in rets:
+        texts = _str_patterns(ctx, schema_fi, r.value, {})
+        if texts is None:
+            raise AnalysisError(f"undecided: the schema text returned by IdentityDatabase.get_schema (`{norm(r.value)[:60]}`) cannot be read")
+        for t in texts:
+            try:
+                d = _table_definition(t, table)
+            except ValueError as ex:
+                raise AnalysisError(f"undecided: CREATE TABLE {table} in IdentityDatabase.get_schema cannot be read: {ex}") from ex
+            if d is not None:
+                definitions.append(d)
+    if not definitions:
+        raise AnalysisError(f"undecided: no CREATE TABLE {table} found in the text returned by IdentityDatabase.get_schema")
+    if any(([c.lower() for c in d[0]], None if d[1] is None else [c.lower() for c in d[1]]) != ([c.lower() for c in definitions[0][0]], None if definitions[0][1] is None else [c.lower() for c in definitions[0][1]])
+           for d in definitions[1:]):
+        raise AnalysisError(f"undecided: IdentityDatabase.get_schema can return different definitions of table {table}")
+    columns, pk = definitions[0]
+    lower_columns = [c.lower() for c in columns]
+    if pk is not None and any(k.lower() not in lower_columns for k in pk):
+        raise AnalysisError(f"undecided: PRIMARY KEY of table {table} names a column the table does not declare")
+    # 2. how insert_attestation resolves a key conflict
+    writes = _sql_writes(ctx, ins, table)
+    if not writes:
+        raise AnalysisError(f"anchor-lost: no SQL statement writing table {table} found in IdentityDatabase.insert_attestation")
+    silent = False
+    listed: list = []
+    for _owner, _n, sql in writes:
+        if sql.startswith(("INSERT OR IGNORE", "INSERT OR REPLACE", "REPLACE")) or "ON CONFLICT" in sql:
+            silent = True
+        elif not sql.startswith(("INSERT INTO", "INSERT OR ABORT", "INSERT OR FAIL", "INSERT OR ROLLBACK")):
+            raise AnalysisError(f"undecided: conflict behaviour of `{sql[:60].replace(_UNK, '?')}` in IdentityDatabase.insert_attestation")
+        m = re.search(r"INTO\s+" + table.upper() + r"\s*\(([^()]*)\)", sql)
+        if m is not None and _UNK not in m.group(1):
+            listed.append([c.strip().strip("\"`[]").lower() for c in m.group(1).split(",")])
+    # 3. the column that holds the authority: the one insert_attestation fills from its authority parameter, and the one get_authority reads back
+    by_insert = None
+    authority_param = ins.params()[2] if len(ins.params()) > 2 else None
+    if authority_param is not None and not local_defs(ins, authority_param):
+        for t in walk_no_nested(ins.node):
+            if isinstance(t, ast.Tuple) and isinstance(t.ctx, ast.Load) and not any(isinstance(e, ast.Starred) for e in t.elts):
+                hits = [i for i, e in enumerate(t.elts) if any(isinstance(x, ast.Name) and x.id == authority_param for x in ast.walk(_expand(ins, e)))]
+                for cols in listed:
+                    if len(cols) == len(t.elts) and len(hits) == 1:
+                        if by_insert not in (None, cols[hits[0]]):
+                            raise AnalysisError("undecided: IdentityDatabase.insert_attestation binds its authority parameter to different columns")
+                        by_insert = cols[hits[0]]
+    by_reader = None
+    doc = ga.node.body[0].value if ga.node.body and isinstance(ga.node.body[0], ast.Expr) and isinstance(ga.node.body[0].value, ast.Constant) else None
+    for n in ast.walk(ga.node):
+        if isinstance(n, (ast.Constant, ast.JoinedStr, ast.BinOp)) and n is not doc and not isinstance(parent(n), (ast.JoinedStr, ast.FormattedValue, ast.BinOp)):
+            for t in _str_patterns(ctx, ga, n, {}) or []:
+                m = re.match(r"\s*SELECT\s+([\"`\[]?\w+[\"`\]]?)\s+FROM\s+" + table + r"\b", " ".join(t.split()), re.IGNORECASE)
+                if m is not None:
+                    col = m.group(1).strip("\"`[]").lower()
+                    if by_reader not in (None, col):
+                        raise AnalysisError("undecided: IdentityDatabase.get_authority reads different columns")
+                    by_reader = col
+    if by_insert is not None and by_reader is not None and by_insert != by_reader:
+        raise AnalysisError(f"undecided: insert_attestation stores the authority in column {by_insert}, get_authority reads it from column {by_reader}")
+    authority = by_insert or by_reader
+    if authority is None or authority not in lower_columns:
+        raise AnalysisError(f"undecided: the column of table {table} that holds the authority of an attestation could not be derived from "
+                            "insert_attestation's bindings or get_authority's SELECT")
+    keyed = pk is None or not silent or authority in [k.lower() for k in pk]
+    construct = f"{table} PRIMARY KEY ({', '.join(pk)})" if pk is not None else f"{table} without PRIMARY KEY"
+    ctx.check(keyed, "own-attestation-recorded", schema_fi, construct,
+              f"our own attestation is always stored: the key of table {table} includes the authority column `{authority}` (or a key conflict is not resolved silently)",
+              f"table {table} is keyed by ({', '.join(pk or [])}) - the authority column `{authority}` is not part of the key - and insert_attestation resolves a key conflict silently: "
+              "a disclosure that carries a valid attestation by ANY other authority occupies the row first, our own attestation is dropped on insert, should_sign's "
+              "'already attested' scan over get_attestations_over(metadata) never finds an attestation by us, and every replay of the disclosure within the 300 s window is attested again")
 
 
 # ------------------------------------------------------------------------------------ attesting
@@ -5034,6 +5461,7 @@ def _param_is_callers_peer(ctx: Ctx, f2: FuncInfo, name: str, writer: str, depth
 def run(ctx: Ctx) -> None:
     rule_should_sign(ctx)
     rule_attested_memory(ctx)
+    rule_own_attestation_recorded(ctx)
     rule_attest(ctx)
     rule_store(ctx)
     rule_permitted(ctx)
@@ -5070,6 +5498,11 @@ WITNESSES = [
      "new": "        for known_hash, known in self.known_attestation_hashes.items():\n            if known[2] == public_key:\n"
             "                self.known_attestation_hashes[known_hash] = (known[0], time(), *known[2:])\n"
             "        self.known_attestation_hashes[attribute_hash] = (name, time(), public_key, metadata)"},
+    {"name": "registration stores a rewritten metadata (empty dict becomes 'no constraint')", "file": IC, "rule": "should-sign",
+     "old": "        self.known_attestation_hashes[attribute_hash] = (name, time(), public_key, metadata)",
+     "new": "        self.known_attestation_hashes[attribute_hash] = (name, time(), public_key, metadata if metadata else None)"},
+    {"name": "authority is part of the attestation key (repaired twin)", "kind": "repaired", "file": ID, "rule": "own-attestation-recorded",
+     "old": "                 PRIMARY KEY (public_key, metadata_pointer)\n", "new": "                 PRIMARY KEY (public_key, authority_key, metadata_pointer)\n"},
     {"name": "attest without should_sign", "file": IC, "rule": "attest-only-if-consented",
      "old": "                    if self.should_sign(pseudonym, credential.metadata):\n", "new": "                    if credential.metadata is not None:\n"},
     {"name": "attest although disclosure incorrect", "file": IC, "rule": "attest-only-if-consented",
